@@ -11,6 +11,7 @@ import (
 	"strings"
 	"testing"
 
+	"github.com/daeuniverse/dae/common/consts"
 	"github.com/daeuniverse/dae/component/routing"
 	"github.com/daeuniverse/dae/pkg/trie"
 	vk "github.com/daeuniverse/dae/verifkit"
@@ -281,7 +282,8 @@ func TestVerifC12(t *testing.T) {
 		if i%16 == 0 {
 			k.Reset()
 		}
-		if _, err := verifLoadProgram(k, b.snap); err != nil {
+		allocStart, err := verifLoadProgram(k, b.snap)
+		if err != nil {
 			m.Violation("load-error", err.Error(), map[string]any{"text": p.Text(), "report": fmt.Sprint(k.Dead())})
 			if k.Dead() != nil {
 				break
@@ -346,6 +348,42 @@ func TestVerifC12(t *testing.T) {
 					map[string]any{"text": p.Text(), "packet": pkts[j].String(), "lpm_sets": fmt.Sprint(b.snap.simulatedLpmTries)})
 				break
 			}
+		}
+		// A set whose trie is gone from lpm_array_map (the slots of a generation are deleted when it
+		// is closed, e.g. after a failed reload, while routing_map may still hold its rules): the
+		// kernel may give up on the packet, but it must not report "not in the set" for an address
+		// the set contains - that is a different set from the one the userspace trie describes.
+		if nl := uint32(len(b.snap.simulatedLpmTries)); nl > 0 && i%3 == 0 && m.Violations() < 5 {
+			gone := (allocStart + uint32(r.IntN(int(nl)))) % uint32(consts.MaxMatchSetLen)
+			if rc := k.LpmDel(gone); rc != 0 {
+				m.Violation("load-error", fmt.Sprintf("LpmDel slot %d rc=%d", gone, rc), map[string]any{"text": p.Text()})
+				continue
+			}
+			for j := range pkts {
+				rq := verifRouteReq(pkts[j], false)
+				k.QRoute(&rq)
+			}
+			res := k.Sync()
+			if k.Dead() != nil {
+				m.Violation("sanitizer", "kernsim died", map[string]any{"text": p.Text(), "report": k.Dead().Error()})
+				break
+			}
+			_, id2name := verifOutboundTable()
+			for j := range pkts {
+				m.Eval(1)
+				ref := vk.RefRoute(p, pkts[j])
+				if res[j].Route < 0 {
+					m.Count("missing_slot_routing_aborted", 1)
+					continue
+				}
+				m.Count("missing_slot_routing_decided", 1)
+				if cname := id2name[uint8(res[j].Route&0xff)]; cname != ref.Outbound {
+					m.Violation("kernel-missing-slot-read-as-empty-set", fmt.Sprintf("with the trie of one set removed from lpm_array_map tproxy.c route() decides %s, containment reference says %s", cname, ref.Outbound),
+						map[string]any{"text": p.Text(), "packet": pkts[j].String(), "removed_slot": gone, "lpm_sets": fmt.Sprint(b.snap.simulatedLpmTries)})
+					break
+				}
+			}
+			m.Count("programs_probed_with_a_missing_slot", 1)
 		}
 		if i < 2 {
 			m.Sample(map[string]any{"observer": "kernel+sharing", "text": p.Text()})
@@ -488,7 +526,7 @@ func TestVerifC12(t *testing.T) {
 			}
 		}
 	}
-	m.Require("real_hash_collisions_constructed")
+	m.Require("real_hash_collisions_constructed", "programs_probed_with_a_missing_slot", "missing_slot_routing_aborted")
 	m.Require("trie_inside", "trie_outside", "kern_inside", "kern_outside", "slash0_v4_sets", "slash0_v6_sets", "programs_with_shared_sets", "forced_hash_collisions")
 	m.Done(t)
 }
